@@ -392,9 +392,11 @@ func checkC06(r *Run) {
 			}
 			switch calleeName(c.Common()) {
 			case "invoke p9p.Channel.WriteFcall":
-				r.Check(fnName(fn) == "(*p9p.conn).write", "single-writer", fnName(fn)+": frames are written only by the writer loop", in.Pos(), "a second writer: frames interleave")
+				wl := p.Fn("p9p:(*conn).write")
+				r.Check(fnName(fn) == "(*p9p.conn).write" || (wl != nil && runsOnlyOn(p, fn, wl, 0)), "single-writer", fnName(fn)+": frames are written only by the writer loop", in.Pos(), "a second writer: frames interleave")
 			case "invoke p9p.Channel.ReadFcall":
-				r.Check(fnName(fn) == "(*p9p.conn).read", "single-writer", fnName(fn)+": frames are read only by the reader loop", in.Pos(), "a second reader")
+				rl := p.Fn("p9p:(*conn).read")
+				r.Check(fnName(fn) == "(*p9p.conn).read" || (rl != nil && runsOnlyOn(p, fn, rl, 0)), "single-writer", fnName(fn)+": frames are read only by the reader loop", in.Pos(), "a second reader")
 			}
 		})
 	}
@@ -551,6 +553,75 @@ func checkDispatchTable(r *Run, rule string) {
 				okRet = false
 			}
 		}
+		// a clause that hands the call's error and the acknowledgement to a helper returning (ack, nil) exactly when the
+		// error is nil (`return ackOrError(session.Clunk(ctx, msg.Fid), MessageRclunk{})`)
+		for _, ret := range returnsOf(h) {
+			if !(body == ret.Block() || body.Dominates(ret.Block())) || len(ret.Results) != 2 {
+				continue
+			}
+			ex0, ok0 := ret.Results[0].(*ssa.Extract)
+			ex1, ok1 := ret.Results[1].(*ssa.Extract)
+			if !ok0 || !ok1 || ex0.Tuple != ex1.Tuple || ex0.Index != 0 || ex1.Index != 1 {
+				continue
+			}
+			hc, isCall := ex0.Tuple.(*ssa.Call)
+			if !isCall {
+				continue
+			}
+			g := staticCallee(&hc.Call)
+			if g == nil || g.Blocks == nil || !p.InModule(g) || len(g.Params) != len(hc.Call.Args) {
+				continue
+			}
+			ei, ai := -1, -1
+			for i, a := range hc.Call.Args {
+				if a == errResult(calls[0]) {
+					ei = i
+				} else if isP9P(a.Type(), "Message") {
+					ai = i
+				}
+			}
+			if ei < 0 || ai < 0 {
+				continue
+			}
+			okHelper, nS := true, 0
+			for _, rs := range returnSites(g) {
+				if len(rs.Results) != 2 {
+					okHelper = false
+					continue
+				}
+				if isNilConst(rs.Results[1]) {
+					nS++
+					onNil := false
+					for _, cd := range rs.Conds() {
+						if nilTestOf(cd, g.Params[ei]) == 1 {
+							onNil = true
+						}
+					}
+					if !onNil || rs.Results[0] != ssa.Value(g.Params[ai]) {
+						okHelper = false
+					}
+				} else if !derivesFrom(rs.Results[1], g.Params[ei], 3) {
+					okHelper = false
+				}
+			}
+			if !okHelper || nS == 0 {
+				continue
+			}
+			nRet++
+			rt := stripConv(hc.Call.Args[ai]).Type()
+			if mi, isMI := hc.Call.Args[ai].(*ssa.MakeInterface); isMI {
+				rt = mi.X.Type()
+			}
+			rn, ok := rt.(*types.Named)
+			if !ok {
+				okRet = false
+				continue
+			}
+			rk := strings.TrimPrefix(rn.Obj().Name(), "Message")
+			if codes[rk] != codes[kind]+1 || codes[kind] == 0 {
+				okRet = false
+			}
+		}
 		// the request is always handed to the session: no return of the clause comes before the Session call
 		// (the dispatcher does not pre-filter requests — limits are the session's, and the client's, business)
 		for _, ret := range returnsOf(h) {
@@ -681,7 +752,9 @@ func checkC07(r *Run) {
 			for _, pair := range [][2]ssa.Value{{b.X, b.Y}, {b.Y, b.X}} {
 				fromEntry := derivesFrom(pair[0], active, 4) && !isTagLoad(pair[0])
 				fromComp := derivesFromCompletion(pair[1], sc.comp) && !isTagLoad(pair[1])
-				if fromEntry && fromComp {
+				// identity means the request object itself: a counter of any fixed width comes round again
+				_, isPtr := pair[0].Type().Underlying().(*types.Pointer)
+				if fromEntry && fromComp && isPtr {
 					okIdent = true
 				}
 			}
@@ -1436,4 +1509,60 @@ func completionScope(p *Prog, sp *serveParts) *compScope {
 	}
 	sc.tags = func(v ssa.Value) bool { return v == tagsPrm }
 	return sc
+}
+
+// ackHelperReturn: the return hands back both results of a helper g(err, ack) that yields (ack, nil) exactly when err —
+// the error of the given session call — is nil, and (nil, err) otherwise. Returns the acknowledgement argument.
+func ackHelperReturn(p *Prog, ret *ssa.Return, sessionCall *ssa.Call) (ssa.Value, bool) {
+	if len(ret.Results) != 2 {
+		return nil, false
+	}
+	ex0, ok0 := ret.Results[0].(*ssa.Extract)
+	ex1, ok1 := ret.Results[1].(*ssa.Extract)
+	if !ok0 || !ok1 || ex0.Tuple != ex1.Tuple || ex0.Index != 0 || ex1.Index != 1 {
+		return nil, false
+	}
+	hc, isCall := ex0.Tuple.(*ssa.Call)
+	if !isCall {
+		return nil, false
+	}
+	g := staticCallee(&hc.Call)
+	if g == nil || g.Blocks == nil || !p.InModule(g) || len(g.Params) != len(hc.Call.Args) {
+		return nil, false
+	}
+	ei, ai := -1, -1
+	for i, a := range hc.Call.Args {
+		if a == errResult(sessionCall) {
+			ei = i
+		} else if isP9P(a.Type(), "Message") {
+			ai = i
+		}
+	}
+	if ei < 0 || ai < 0 {
+		return nil, false
+	}
+	nS := 0
+	for _, rs := range returnSites(g) {
+		if len(rs.Results) != 2 {
+			return nil, false
+		}
+		if isNilConst(rs.Results[1]) {
+			nS++
+			onNil := false
+			for _, cd := range rs.Conds() {
+				if nilTestOf(cd, g.Params[ei]) == 1 {
+					onNil = true
+				}
+			}
+			if !onNil || rs.Results[0] != ssa.Value(g.Params[ai]) {
+				return nil, false
+			}
+		} else if !derivesFrom(rs.Results[1], g.Params[ei], 3) {
+			return nil, false
+		}
+	}
+	if nS == 0 {
+		return nil, false
+	}
+	return hc.Call.Args[ai], true
 }
